@@ -289,11 +289,13 @@ def gen_unit(rng, cfg, tables, info_offset, abbrev_offset, decls):
             for k in kids:
                 e['children'].append(emit(k, idx))
             toff = die_off + len(out)
-            out.extend(b'\x00')
-            entries.append(dict(offset=toff, code=0, tag=None, has_children=None, attrs=[], size=1, parent=idx, children=[],
+            # a null entry is the abbreviation code 0 as a ULEB128 number: one zero byte, or (legal, rare) a padded zero
+            nul = r.choice([b'\x00'] * 5 + [b'\x80\x00', b'\x80\x80\x00'])
+            out.extend(nul)
+            entries.append(dict(offset=toff, code=0, tag=None, has_children=None, attrs=[], size=len(nul), parent=idx, children=[],
                                 terminator=None, null=True))
             e['terminator'] = len(entries) - 1
-            e['end'] = toff + 1
+            e['end'] = toff + len(nul)
         else:
             e['end'] = off + e['size']
         return idx
